@@ -1497,7 +1497,8 @@ func runC12(r *Run) {
 		"every execution goes through the real taskHandler -> handleRunHook -> Hook.Run with a real process, real MetricStorage and kube-client/fake; " +
 		"the hook records pwd, the six path variables, initial file sizes and the context file, and checks from its own working directory that every variable names a file it can read and write. " +
 		"Fourth wave: 12% of the executions (45% of those with a non-zero exit) write a patch file of 1-4 MergePatch / JSONPatch / JQPatch operations, each on its own object, with every combination of ignoreHookError and subresource (none, /status, other spellings) plus the own Create — which of them took effect is observed per operation; " +
-		"24 (thorough: 160) further cases run one at a time with the directories configured the way bootstrap.go does it: the process changes into an operator working directory that is not the hooks directory, --hooks-dir / --tmp-dir (or the environment variables) go through the real flag definitions, RequireExistingDirectory and EnsureTempDirectory, spelled absolute, relative, ./relative, with a trailing slash, through sub/.., with // and /./, through dir/../dir, through a relative or absolute symbolic link; the temp dir existing or not before the start, inside or beside the working directory. 35% of the cases add a hook whose name (189-193 characters) makes the creation of the 4th / 3rd / 1st temp file fail (NAME_MAX) and run it once more at the end: not started, failed, nothing left behind. Non-trivial = at least 2 executions or a non-empty output/non-zero exit."
+		"24 (thorough: 160) further cases run one at a time with the directories configured the way bootstrap.go does it: the process changes into an operator working directory that is not the hooks directory, --hooks-dir / --tmp-dir (or the environment variables) go through the real flag definitions, RequireExistingDirectory and EnsureTempDirectory, spelled absolute, relative, ./relative, with a trailing slash, through sub/.., with // and /./, through dir/../dir, through a relative or absolute symbolic link; the temp dir existing or not before the start, inside or beside the working directory. 35% of the cases add a hook whose name (189-193 characters) makes the creation of the 4th / 3rd / 1st temp file fail (NAME_MAX) and run it once more at the end: not started, failed, nothing left behind. " +
+		"Sixth wave (file SIZE): 12% of the generated texts — and every execution of 16 (thorough: 240) further cases, plus corpus case 11 for 512 / 1536 / 3584 bytes in each of the four files — are padded (white space in front / after the first brace / after the first value, or an ignored field holding one long string) so that the end of the first JSON value, the end of the white space after it, or the end of the text falls exactly on (60%), one byte before or one / two bytes after a boundary at which a reader has just filled its buffer (512, 1024, 1536, 2048, 3584, 4096, 7680, 8192 bytes): well-formed texts of exactly that size, and texts with garbage / a stray closer / a second document / a cut right behind it. Non-trivial = at least 2 executions or a non-empty output/non-zero exit."
 	app.DebugKeepTmpFilesVar = "no"
 
 	// corpus 0: every failure stage in one case, sequentially
